@@ -8,7 +8,8 @@ PROP = {
             "frontend's router/handler and through the UDP frontend's handleRequest (valid connection ID); instrumented hooks and a spy store around a real memory "
             "store record the invocation trace; fixed corner chains first. Non-trivial = at least one configured hook; distinct = distinct input JSON.",
     "tags": {"10": "rejected by a pre-hook, via logic", "11": "rejected, via HTTP", "12": "rejected, via UDP", "20": "accepted, via logic", "21": "accepted, via HTTP",
-             "22": "accepted, via UDP", "120": "accepted but a post-hook fails, via logic", "121": "same via HTTP", "122": "same via UDP"},
+             "22": "accepted, via UDP", "120": "accepted but a post-hook fails, via logic", "121": "same via HTTP", "122": "same via UDP",
+             "201": "backlog of pending post-response runs, via HTTP", "202": "same via UDP"},
     "trivial_tags": [], "min_tags": 6,
     "reasons": {"902": "(trace event, not a reason) another client's pending post-response processing applied something else than its own request", "1": "after a rejection a later hook or a post-hook ran (or hooks ran out of order)", "2": "a rejected request was answered / something besides the error was disclosed",
                 "3": "a rejected request read or changed the store", "4": "the client did not receive the rejecting hook's error (client text / generic internal)",
